@@ -37,7 +37,8 @@ impl FileSystem for PhysicalFS {
         let entries = Box::new(
             self.get_path(path)
                 .read_dir()?
-                .map(|entry| entry.unwrap().file_name().into_string().unwrap()),
+                .filter_map(|entry| entry.ok())
+                .map(|entry| entry.file_name().to_string_lossy().into_owned()),
         );
         Ok(entries)
     }
@@ -46,8 +47,10 @@ impl FileSystem for PhysicalFS {
         let fs_path = self.get_path(path);
         std::fs::create_dir(&fs_path).map_err(|err| match err.kind() {
             ErrorKind::AlreadyExists => {
-                let metadata = std::fs::metadata(&fs_path).unwrap();
-                if metadata.is_dir() {
+                let is_dir = std::fs::metadata(&fs_path)
+                    .map(|metadata| metadata.is_dir())
+                    .unwrap_or(false);
+                if is_dir {
                     return VfsError::from(VfsErrorKind::DirectoryExists);
                 }
                 VfsError::from(VfsErrorKind::FileExists)
